@@ -1,0 +1,17 @@
+//go:build verif
+
+package git
+
+// Contracts checked by /verif/engine (govc). Comment-only file: no code is compiled from it.
+
+// C03: the two versions of a changed file that `pint ci` compares are the file as the branch found it - at the parent
+// of the first branch commit that touches the path (following renames) - and the file at the last such commit; the
+// same two revisions are used for the file type, the symlink target and the content.
+//@ func Changes [C03]
+//@   at call getContentAtCommit#1 assert len(change.Commits) >= 1 && arg1 == change.Commits[0] + "^"
+//@   at call getContentAtCommit#2 assert arg1 == lastCommit
+//@   at call getTypeForPath#4 assert arg1 == change.Commits[0] + "^"
+//@   at call getTypeForPath#5 assert arg1 == lastCommit
+//@   at call getModifiedLines assert arg3 == lastCommit
+//@   at call resolveSymlinkTarget#2 assert arg1 == change.Commits[0] + "^"
+//@   at call resolveSymlinkTarget#3 assert arg1 == lastCommit
